@@ -50,6 +50,9 @@ Points == {
   P("maxF32",    TRUE,  {"Float64", "Float32"}, {"float32", "float64", "decstr", "expstr", "jsonnum"}),
   P("2^128",     TRUE,  {"Float64"}, {"float64", "decstr", "expstr", "jsonnum"}),
   P("1e300",     TRUE,  {"Float64"}, {"float64", "decstr", "expstr", "jsonnum"}),
+  P("-1e300",    TRUE,  {"Float64"}, {"float64", "decstr", "expstr", "jsonnum"}),
+  P("-2^128",    TRUE,  {"Float64"}, {"float64", "decstr", "expstr", "jsonnum"}),
+  P("-maxF32",   TRUE,  {"Float64", "Float32"}, {"float32", "float64", "decstr", "expstr", "jsonnum"}),
   P("NaN",       FALSE, {"Float64", "Float32"}, {"float32", "float64", "decstr"}),
   P("+Inf",      FALSE, {"Float64", "Float32"}, {"float32", "float64", "decstr"}),
   P("-Inf",      FALSE, {"Float64", "Float32"}, {"float32", "float64", "decstr"}) }
